@@ -33,18 +33,75 @@ def run(ctx):
         model_ok = ok
         if not ok:
             model_ok, _ = ctx.coq_build(["lib/Upload.vo"])
-        import time
-        for fn, args in ((paths_check, (names,)), (upload_check, (names,)), (registry_check, ()), (gatherer_check, (names,)),
-                         (publisher_check, (names,))):
-            t0 = time.time()
-            fn(ctx, impl, *args, model_ok)
-            ctx.extra["t_" + fn.__name__] = round(time.time() - t0, 1)
+        jobs = []
+        paths_check(ctx, impl, names, jobs)
+        upload_check(ctx, impl, names, jobs)
+        registry_check(ctx, impl, jobs)
+        gatherer_check(ctx, impl, names, jobs)
+        publisher_check(ctx, impl, names, jobs)
+        if model_ok:
+            run_jobs(ctx, jobs)
     impl.wipe()
     if not ok and len(ctx.failures) == before:
         ctx.fail("proof-broken", "theorem closure props/C19.vo no longer builds against the regenerated gen/UploadGen.v: "
                  + tail(log), replay=dict(log=tail(log, 6000)), has_input=False)
     elif not ok:
         ctx.note("proof broken AND a failing input was found (reported above)")
+
+
+# ---------------------------------------------------------------------------
+# correspondence jobs: the model's observations are compared with the implementation's INSIDE Coq
+# (printing large values is what makes coqc slow); only the indices of disagreeing cases come back.
+
+def lstr(xs):
+    """list of bytes / int lists -> Coq `list (list N)`"""
+    return coq_list([coq_bytes(bytes(x) if not isinstance(x, (bytes, str)) else (enc(x) if isinstance(x, str) else x))
+                     for x in xs])
+
+
+def make_job(name, sig, prelude, case_type, case_terms, obs_def, expected, describe):
+    """obs_def defines `obs : case_type -> list (list N)`; expected[i] is the implementation's observation of case i
+    (a list of byte strings); describe(i) -> text for a failure message"""
+    body = prelude
+    body += "Definition cases : list (%s) := %s.\n" % (case_type, coq_list(case_terms))
+    body += obs_def
+    body += "Definition expected : list (list (list N)) := %s.\n" % coq_list([lstr(e) for e in expected])
+    body += "Eval vm_compute in mismatches (map obs cases) expected.\n"
+    return dict(name=name, sig=sig, body=body, n=len(case_terms), expected=expected, describe=describe)
+
+
+def run_jobs(ctx, jobs):
+    from concurrent.futures import ThreadPoolExecutor
+
+    def ev(j):
+        try:
+            return ctx.coq_eval(j["name"], j["body"], requires=REQ)
+        except common.CoqEvalError as e:
+            return e
+    with ThreadPoolExecutor(max_workers=8) as ex:
+        results = list(ex.map(ev, jobs))
+    for j, r in zip(jobs, results):
+        fam = j["name"].split("_")[1]
+        ctx.extra[fam + "_cases"] = ctx.extra.get(fam + "_cases", 0) + j["n"]
+        if isinstance(r, Exception):
+            ctx.fail("correspondence-broken", "the model could not be evaluated (%s): %s" % (j["name"], str(r)[-1500:]), has_input=False)
+            continue
+        (bad,) = r
+        ctx.traces += j["n"] - len(bad)
+        ctx.extra[fam + "_disagreements"] = ctx.extra.get(fam + "_disagreements", 0) + len(bad)
+        if bad:
+            detail = ""
+            try:
+                body = j["body"].rsplit("Eval vm_compute", 1)[0] + "Eval vm_compute in map (fun i => nth i (map obs cases) []) %s.\n" % coq_list(
+                    ["%d%%nat" % i for i in bad[:3]])
+                (vals,) = ctx.coq_eval(j["name"] + "_detail", body, requires=REQ)
+                detail = "; ".join("case %d %s: model %r, implementation %r" % (i, j["describe"](i), [bytes(x) for x in v],
+                                                                                   [bytes(x) if not isinstance(x, str) else x for x in j["expected"][i]])
+                                   for i, v in zip(bad, vals))
+            except Exception as e:      # the detail is a convenience only
+                detail = "cases %r (%s)" % (bad[:10], j["describe"](bad[0]))
+            ctx.fail(j["sig"], "model and implementation disagree on %d of %d cases: %s" % (len(bad), j["n"], detail[:3000]),
+                     replay=dict(cases=[j["describe"](i) for i in bad[:10]]), has_input=False)
 
 
 # ---------------------------------------------------------------------------
@@ -122,7 +179,7 @@ def corpus(ctx, impl):
 # ---------------------------------------------------------------------------
 # 1. path functions: model vs posixpath / FilePath.child on every name
 
-def paths_check(ctx, impl, names, model_ok):
+def paths_check(ctx, impl, names, jobs):
     from twisted.python.filepath import FilePath, InsecurePath
     arena, target, sent = impl.fresh("paths")
     base = FilePath(target)
@@ -142,40 +199,24 @@ def paths_check(ctx, impl, names, model_ok):
             if not (r[0].startswith(target + "/") and plain(comp)):
                 ctx.fail("oracle/child-not-direct", "FilePath(%r).child(%r) = %r passes the parent() test but is not a "
                          "direct child" % (target, n, r[0]), replay=dict(name=n, result=r[0]))
-    if not model_ok:
-        return
     extra = [target + "/" + n for n in names[:150]] + names[:150]
-    body = "Definition base : str := %s.\nDefinition cwd : str := %s.\n" % (cb(target), cb(os.getcwd()))
-    body += "Definition names : list str := %s.\n" % coq_list([cb(n) for n in names])
-    body += "Eval vm_compute in map (fun n => (code_opt (child cwd base n), code_opt (guarded GuardParentEq cwd base n))) names.\n"
-    body += "Definition strs : list str := %s.\n" % coq_list([cb(n) for n in extra])
-    body += "Eval vm_compute in map (fun s => (normpath s, dirname s, basename s, join base s, abspath cwd s)) strs.\n"
-    try:
-        v1, v2 = ctx.coq_eval("C19_paths", body, requires=REQ)
-    except common.CoqEvalError as e:
-        ctx.fail("correspondence-broken", "Paths model could not be evaluated: " + str(e)[-1500:], has_input=False)
-        return
-    bad = 0
-    for n, r, (mc, mg) in zip(names, real, v1):
+    pre = "Definition base : str := %s.\nDefinition cwd : str := %s.\n" % (cb(target), cb(os.getcwd()))
+    exp = []
+    for n, r in zip(names, real):
         ec = [0] if r is None else [1] + list(enc(r[0]))
         eg = [0] if (r is None or not r[1]) else [1] + list(enc(r[0]))
-        ctx.traces += 1
-        if mc != ec or mg != eg:
-            bad += 1
-            ctx.fail("correspondence/child", "model child/guarded disagrees with FilePath.child on %r: model %r / %r, real %r"
-                     % (n, bytes(mc[1:]), bytes(mg[1:]), r), replay=dict(name=n), has_input=False)
-    for s, m in zip(extra, v2):
-        exp = (posixpath.normpath(s), posixpath.dirname(s), posixpath.basename(s), posixpath.join(target, s),
-               posixpath.abspath(s))
-        got = tuple(dec(x) for x in m)
-        ctx.traces += 1
-        ctx.case(["pathfn", s], nontrivial="/" in s or "." in s)
-        if got != exp:
-            bad += 1
-            ctx.fail("correspondence/posixpath", "model (normpath, dirname, basename, join, abspath) of %r = %r, posixpath says %r"
-                     % (s, got, exp), replay=dict(s=s), has_input=False)
-    ctx.extra["paths_cases"] = len(names) + len(extra)
-    ctx.extra["paths_disagreements"] = bad
+        exp.append([ec, eg])
+    jobs.append(make_job("C19_paths_child", "correspondence/child", pre, "str", [cb(n) for n in names],
+                         "Definition obs (n : str) := [code_opt (child cwd base n); code_opt (guarded GuardParentEq cwd base n)].\n",
+                         exp, lambda i: "FilePath(%r).child(%r)" % (target, names[i])))
+    exp2 = []
+    for x in extra:
+        ctx.case(["pathfn", x], nontrivial="/" in x or "." in x)
+        exp2.append([posixpath.normpath(x), posixpath.dirname(x), posixpath.basename(x), posixpath.join(target, x),
+                     posixpath.abspath(x)])
+    jobs.append(make_job("C19_paths_posixpath", "correspondence/posixpath", pre, "str", [cb(x) for x in extra],
+                         "Definition obs (s : str) := [normpath s; dirname s; basename s; join base s; abspath cwd s].\n",
+                         exp2, lambda i: "(normpath, dirname, basename, join(base,.), abspath) of %r" % extra[i]))
 
 
 # ---------------------------------------------------------------------------
@@ -326,7 +367,7 @@ def coq_ents(ents):
     return coq_list(es), coq_list(cs)
 
 
-def upload_check(ctx, impl, names, model_ok):
+def upload_check(ctx, impl, names, jobs):
     cases = []
     # (a) every name once, on an empty directory, two blocks
     for n in names:
@@ -358,72 +399,66 @@ def upload_check(ctx, impl, names, model_ok):
         sweep = [c for c in sweep if len(c["blocks"]) <= 3][:ctx.n(60, 0)]
     for c in sweep:
         c["crash_views"] = crash_sweep(ctx, impl, c)
-    if model_ok:
-        upload_correspond(ctx, cases)
+    upload_correspond(ctx, cases, jobs)
 
 
-def upload_correspond(ctx, cases):
-    cwd = os.getcwd()
-    nbad = 0
-    for shard in range(0, len(cases), 400):
-        part = cases[shard:shard + 400]
-        lines = []
-        for c in part:
-            es, cs = coq_ents(c["ents"])
-            blocks = c["blocks"] if c["ending"] == "done" else c["blocks"][:c["ending"][1]]
-            lines.append("(%s, %s, %s, %s, (%s, %s))" % (cb(c["target"]), cb(c["name"]), coq_list([cb(b) for b in blocks]),
-                                                       "Done" if c["ending"] == "done" else "SrcError", es, cs))
-        body = "Definition cwd : str := %s.\n" % cb(cwd)
-        body += "Definition cases : list (str * str * list (list N) * outcome * (list (str * ent) * list (list N))) := %s.\n" % coq_list(lines)
-        body += """Definition obs (c : str * str * list (list N) * outcome * (list (str * ent) * list (list N))) :=
-  let '(base, name, blocks, oc, (ents, cont)) := c in
+def enc_ops(ops):
+    out = []
+    for o in ops:
+        if len(o) != 4:
+            out += [[99], list(enc(o[0])), []]
+        else:
+            out += [[o[0], o[3]], list(enc(o[1])), list(enc(o[2]))]
+    return out
+
+
+UPLOAD_OBS = """Definition obs (c : str * str * list (list N) * outcome * (list (str * ent) * list (list N)) * bool) : list (list N) :=
+  let '(base, name, blocks, oc, (ents, cont), with_crash) := c in
   let s0 := mk_st ents cont in
   match guarded putfile_guard cwd base name with
-  | None => (false, [], ([], [], []), (false, false))
+  | None => [[0%N]]
   | Some final =>
     let ops := upload_ops final blocks oc in
     let s := run s0 ops in
-    (true, map code_op (effective s0 ops),
-     (code_view (look s final), code_view (look s (final ++ putfile_tmp_ext)), crash_views s0 ops final),
-     (failed s, followed s))
+    [[1%N]] ++ flat_map enc_op (effective s0 ops) ++
+    [[100%N]; code_view (look s final); code_view (look s (final ++ putfile_tmp_ext)); [b2n (failed s); b2n (followed s)]] ++
+    (if with_crash then [101%N] :: crash_views s0 ops final else [])
   end.
-Eval vm_compute in map obs cases.
 """
-        try:
-            (vals,) = ctx.coq_eval("C19_upload_%d" % (shard // 400), body, requires=REQ)
-        except common.CoqEvalError as e:
-            ctx.fail("correspondence-broken", "Upload model could not be evaluated: " + str(e)[-1500:], has_input=False)
-            return
-        for c, (acc, mops, (mfin, mtmp, mcrash), (mfailed, mfollowed)) in zip(part, vals):
-            ctx.traces += 1
-            key = dict(name=c["name"], variant=c["variant"], ending=c["ending"], blocks=[b.hex() for b in c["blocks"]])
-            real_refused = c["out"] in ("raise:InsecurePath", "raise:BadFilenameError")
-            if not acc or real_refused:
-                if acc != (not real_refused) or (real_refused and c["ops"]):
-                    nbad += 1
-                    ctx.fail("correspondence/upload-acceptance", "model %s the name but the implementation answered %s (ops %r): %r"
-                             % ("accepts" if acc else "refuses", c["out"], c["ops"], key), replay=key, has_input=False)
-                continue
-            if os_refuses(c["name"]):
-                continue    # open() itself fails (NUL / ENAMETOOLONG): outside the model; the direct oracle covered it
-            mo = [(k, dec(p1), dec(p2) if p2 else "", n) for (k, p1, p2, n) in mops]
-            if mo != c["ops"] or mfin != c["final_view"] or mtmp != c["tmp_view"] or mfailed or mfollowed:
-                nbad += 1
-                ctx.fail("correspondence/upload-trace", "model and implementation disagree on %r:\n model ops %r final %r tmp %r failed=%s followed=%s\n"
-                         " real  ops %r final %r tmp %r" % (key, mo, mfin, mtmp, mfailed, mfollowed, c["ops"], c["final_view"], c["tmp_view"]),
-                         replay=key, has_input=False)
-            if "crash_views" in c and mcrash != c["crash_views"]:
-                nbad += 1
-                ctx.fail("correspondence/upload-crash-views", "views of the final name after a crash before each operation differ on %r: model %r, real %r"
-                         % (key, mcrash, c["crash_views"]), replay=key, has_input=False)
-    ctx.extra["upload_cases"] = len(cases)
-    ctx.extra["upload_disagreements"] = nbad
+
+
+def upload_correspond(ctx, cases, jobs):
+    cwd = os.getcwd()
+    # names on which open() itself fails (NUL / ENAMETOOLONG) are outside the model; the direct oracle covered them
+    cases = [c for c in cases if not (os_refuses(c["name"]) and c["out"] not in ("raise:InsecurePath", "raise:BadFilenameError"))]
+    SH = 150
+    for shard in range(0, len(cases), SH):
+        part = cases[shard:shard + SH]
+        terms, exp = [], []
+        for c in part:
+            es, cs = coq_ents(c["ents"])
+            blocks = c["blocks"] if c["ending"] == "done" else c["blocks"][:c["ending"][1]]
+            terms.append("(%s, %s, %s, %s, (%s, %s), %s)" % (cb(c["target"]), cb(c["name"]), coq_list([cb(b) for b in blocks]),
+                                                           "Done" if c["ending"] == "done" else "SrcError", es, cs,
+                                                           "true" if "crash_views" in c else "false"))
+            if c["out"] in ("raise:InsecurePath", "raise:BadFilenameError") and not c["ops"]:
+                exp.append([[0]])
+            else:
+                e = [[1]] + enc_ops(c["ops"]) + [[100], c["final_view"], c["tmp_view"], [0, 0]]
+                if "crash_views" in c:
+                    e += [[101]] + c["crash_views"]
+                exp.append(e)
+        jobs.append(make_job("C19_upload_%d" % (shard // SH), "correspondence/upload-trace",
+                             "Definition cwd : str := %s.\n" % cb(cwd),
+                             "str * str * list (list N) * outcome * (list (str * ent) * list (list N)) * bool", terms, UPLOAD_OBS, exp,
+                             (lambda part: lambda i: "upload %r" % dict(name=part[i]["name"], variant=part[i]["variant"], ending=part[i]["ending"],
+                                                                         blocks=[b.hex() for b in part[i]["blocks"]], outcome=part[i]["out"]))(part)))
 
 
 # ---------------------------------------------------------------------------
 # 3. registry
 
-def registry_check(ctx, impl, model_ok):
+def registry_check(ctx, impl, jobs):
     datas = [{"version": 1, "services": {}},
              {"version": 1, "services": {"swiss1": {"relative_basedir": "services/1", "type": "upload-file",
                                                     "args": ["/tmp/x"], "comment": None}}}]
@@ -476,36 +511,19 @@ def registry_check(ctx, impl, model_ok):
                              replay=dict(old=old, new=new, crash_before_op=k, ops=r2.ops))
             cases.append(dict(target=target, old=None if old is None else bytes(view_after_save(impl, old)),
                               chunks=list(rec.written), ops=canon_ops(rec.ops, arena), views=views))
-    if not model_ok:
-        return
-    lines = []
+    terms, exp = [], []
     for c in cases:
         ents = [] if c["old"] is None else [(os.path.join(c["target"], "services.json"), ("F", c["old"]))]
         es, cs = coq_ents(ents)
-        lines.append("(%s, %s, (%s, %s))" % (cb(c["target"]), coq_list([cb(x) for x in c["chunks"]]), es, cs))
-    body = "Definition cases : list (str * list (list N) * (list (str * ent) * list (list N))) := %s.\n" % coq_list(lines)
-    body += """Definition obs (c : str * list (list N) * (list (str * ent) * list (list N))) :=
+        terms.append("(%s, %s, (%s, %s))" % (cb(c["target"]), coq_list([cb(x) for x in c["chunks"]]), es, cs))
+        exp.append(enc_ops(c["ops"]) + [[100], [0]] + c["views"])
+    jobs.append(make_job("C19_registry_0", "correspondence/registry", "", "str * list (list N) * (list (str * ent) * list (list N))", terms,
+                         """Definition obs (c : str * list (list N) * (list (str * ent) * list (list N))) : list (list N) :=
   let '(base, chunks, (ents, cont)) := c in
   let s0 := mk_st ents cont in
   let ops := registry_ops base chunks in
-  (map code_op (effective s0 ops), crash_views s0 ops (registry_final base), failed (run s0 ops)).
-Eval vm_compute in map obs cases.
-"""
-    try:
-        (vals,) = ctx.coq_eval("C19_registry", body, requires=REQ)
-    except common.CoqEvalError as e:
-        ctx.fail("correspondence-broken", "registry model could not be evaluated: " + str(e)[-1500:], has_input=False)
-        return
-    nbad = 0
-    for c, (mops, mviews, mfailed) in zip(cases, vals):
-        ctx.traces += 1
-        mo = [(k, dec(p1), dec(p2) if p2 else "", n) for (k, p1, p2, n) in mops]
-        if mo != c["ops"] or mviews != c["views"] or mfailed:
-            nbad += 1
-            ctx.fail("correspondence/registry", "model and implementation disagree on a registry rewrite:\n model ops %r\n real ops %r\n"
-                     " model views %r\n real views %r" % (mo, c["ops"], mviews, c["views"]), has_input=False)
-    ctx.extra["registry_cases"] = len(cases)
-    ctx.extra["registry_disagreements"] = nbad
+  flat_map enc_op (effective s0 ops) ++ [[100%N]; [b2n (failed (run s0 ops))]] ++ crash_views s0 ops (registry_final base).
+""", exp, lambda i: "registry rewrite #%d (%d chunks)" % (i, len(cases[i]["chunks"]))))
 
 
 def view_after_save(impl, data):
@@ -542,35 +560,27 @@ def one_gather(ctx, impl, name, sig=None, collect=None):
     return out
 
 
-def gatherer_check(ctx, impl, names, model_ok):
+def gatherer_check(ctx, impl, names, jobs):
     cases = []
     for n in names:
         one_gather(ctx, impl, n, collect=cases)
         ctx.case(["gatherer", n], nontrivial=not plain(n))
-    if not model_ok:
-        return
-    body = "Definition cwd : str := %s.\nDefinition base : str := %s.\n" % (cb(os.getcwd()), cb(cases[0]["target"]))
-    body += "Eval vm_compute in map (fun n => code_opt (gatherer_path cwd base n)) %s.\n" % coq_list([cb(c["name"]) for c in cases])
-    try:
-        (vals,) = ctx.coq_eval("C19_gatherer", body, requires=REQ)
-    except common.CoqEvalError as e:
-        ctx.fail("correspondence-broken", "gatherer model could not be evaluated: " + str(e)[-1500:], has_input=False)
-        return
-    nbad = 0
-    for c, m in zip(cases, vals):
-        ctx.traces += 1
-        if m == [0]:
-            good = c["out"].startswith("raise:") and not c["created"]
-        elif os_refuses(c["name"]):
-            good = c["out"].startswith("raise:") and not c["created"]
+    # names on which the operating system refuses the file are outside the model (direct oracle covered them)
+    cs_ = [c for c in cases if not (os_refuses(c["name"]) and c["out"] not in ("raise:InsecurePath", "raise:ValueError:guard"))
+           or c["out"] == "raise:InsecurePath"]
+    cs_ = [c for c in cases if not os_refuses(c["name"])]
+    exp = []
+    for c in cs_:
+        if c["out"] == "ok" and len(c["created"]) == 1:
+            exp.append([[1] + list(enc(c["created"][0]))])
+        elif c["out"].startswith("raise:") and not c["created"]:
+            exp.append([[0]])
         else:
-            good = c["out"] == "ok" and c["created"] == [dec(m[1:])]
-        if not good:
-            nbad += 1
-            ctx.fail("correspondence/gatherer", "incident name %r: model says %r, implementation %s and created %r"
-                     % (c["name"], None if m == [0] else dec(m[1:]), c["out"], c["created"]), replay=dict(name=c["name"]), has_input=False)
-    ctx.extra["gatherer_cases"] = len(cases)
-    ctx.extra["gatherer_disagreements"] = nbad
+            exp.append([[98], list(enc(repr((c["out"], c["created"]))))])
+    pre = "Definition cwd : str := %s.\nDefinition base : str := %s.\n" % (cb(os.getcwd()), cb(cases[0]["target"]))
+    jobs.append(make_job("C19_gatherer_0", "correspondence/gatherer", pre, "str", [cb(c["name"]) for c in cs_],
+                         "Definition obs (n : str) := [code_opt (gatherer_path cwd base n)].\n", exp,
+                         lambda i: "incident name %r -> %s, created %r" % (cs_[i]["name"], cs_[i]["out"], cs_[i]["created"])))
 
 
 # ---------------------------------------------------------------------------
@@ -600,28 +610,32 @@ def one_publish(ctx, impl, name, sig=None, collect=None):
     return out
 
 
-def publisher_check(ctx, impl, names, model_ok):
+def publisher_check(ctx, impl, names, jobs):
     cases = []
     for n in names:
         one_publish(ctx, impl, n, collect=cases)
         ctx.case(["publisher", n], nontrivial=n.startswith("incident") and not plain(n))
-    if not model_ok:
-        return
-    body = "Definition cwd : str := %s.\nDefinition base : str := %s.\n" % (cb(os.getcwd()), cb(cases[0]["target"]))
-    body += ("Eval vm_compute in map (fun n => match publisher_paths cwd base n with None => [] | Some l => l end) %s.\n"
-             % coq_list([cb(c["name"]) for c in cases]))
-    try:
-        (vals,) = ctx.coq_eval("C19_publisher", body, requires=REQ)
-    except common.CoqEvalError as e:
-        ctx.fail("correspondence-broken", "publisher model could not be evaluated: " + str(e)[-1500:], has_input=False)
-        return
-    nbad = 0
-    for c, m in zip(cases, vals):
-        ctx.traces += 1
-        allowed = [dec(x) for x in m]
-        if any(p not in allowed for p in c["opened"]) or (not allowed and not c["out"].startswith("raise:")):
-            nbad += 1
-            ctx.fail("correspondence/publisher", "incident name %r: model allows reading %r, implementation opened %r (%s)"
-                     % (c["name"], allowed, c["opened"], c["out"]), replay=dict(name=c["name"]), has_input=False)
-    ctx.extra["publisher_cases"] = len(cases)
-    ctx.extra["publisher_disagreements"] = nbad
+    # the implementation may only open files the model lists, and must refuse when the model refuses:
+    # observation = [refused?] ++ opened paths; the model side answers with the same list when each opened path is allowed
+    exp = []
+    for c in cases:
+        refused = c["out"].startswith("raise:") and not c["opened"]
+        exp.append([[0 if refused else 1]] + [list(enc(p)) for p in c["opened"]])
+    pre = "Definition cwd : str := %s.\nDefinition base : str := %s.\n" % (cb(os.getcwd()), cb(cases[0]["target"]))
+    pre += "Definition opened : list (list str) := %s.\n" % coq_list([coq_list([cb(p) for p in c["opened"]]) for c in cases])
+    obs = """Definition obs (c : nat * str) : list (list N) :=
+  let '(i, n) := c in
+  let was := nth i opened [] in
+  match publisher_paths cwd base n with
+  | None => [[0%N]]                                   (* KeyError / InsecurePath before any file is touched *)
+  | Some allowed => match was with
+                    | [] => [[0%N]]                   (* nothing opened: file absent (KeyError), also fine *)
+                    | _ => [[1%N]] ++ filter (fun p => existsb (str_eqb p) allowed) was
+                    end
+  end.
+"""
+    # when the model allows paths but the implementation found none (ENOENT) both sides say [[0]]
+    exp = [e if e != [[1]] else [[0]] for e in exp]
+    jobs.append(make_job("C19_publisher_0", "correspondence/publisher", pre, "nat * str",
+                         ["(%d%%nat, %s)" % (i, cb(c["name"])) for i, c in enumerate(cases)], obs, exp,
+                         lambda i: "get_incident(%r) -> %s, opened %r" % (cases[i]["name"], cases[i]["out"], cases[i]["opened"])))
